@@ -357,6 +357,25 @@ fn core_case(sub: &str, id: u64, r: &mut Report) {
             let mut a = C::from_seed(seed);
             let mut res = <C as BlockRngCore>::Results::default();
             for _ in 0..gens { a.generate(&mut res); }
+            // a state deep into the stream (any a, b and block counter c, high bits set),
+            // installed through the crate's own serde image: clones of old generators
+            let deep = p.chance(1, 3);
+            if deep {
+                let mut img = bincode::serialize(&a).unwrap();
+                let tail = p.bytes(3 * 4);
+                img[256 * 4..].copy_from_slice(&tail);
+                if p.chance(1, 2) { for b in img[258 * 4 + 1..].iter_mut() { *b = if p.chance(1, 2) { 0 } else { 0xff }; } }
+                a = bincode::deserialize(&img).unwrap();
+                for _ in 0..p.below(3) { a.generate(&mut res); }
+                r.cov("core:IsaacCore:deep_state");
+            }
+            if deep && p.chance(1, 2) {
+                core_pair(a.clone(), a, "clone", true, json!({"seed": hex(&seed), "generated_blocks": gens, "deep_state": true}), sub, id, r);
+                r.cov("core:IsaacCore");
+                r.cov("core:IsaacCore:deep_clone");
+                r.distinct(hkey(&[&"core_deep_clone", &which, &seed[..].to_vec(), &gens]));
+                return;
+            }
             if p.chance(1, 4) {
                 // clone_from into a core of a different age / seed
                 let mut dst = C::from_seed(p.bytes(32).try_into().unwrap());
@@ -387,6 +406,25 @@ fn core_case(sub: &str, id: u64, r: &mut Report) {
             let mut a = C::from_seed(seed);
             let mut res = <C as BlockRngCore>::Results::default();
             for _ in 0..gens { a.generate(&mut res); }
+            // a state deep into the stream (any a, b and block counter c, high bits set),
+            // installed through the crate's own serde image: clones of old generators
+            let deep = p.chance(1, 3);
+            if deep {
+                let mut img = bincode::serialize(&a).unwrap();
+                let tail = p.bytes(3 * 8);
+                img[256 * 8..].copy_from_slice(&tail);
+                if p.chance(1, 2) { for b in img[258 * 8 + 1..].iter_mut() { *b = if p.chance(1, 2) { 0 } else { 0xff }; } }
+                a = bincode::deserialize(&img).unwrap();
+                for _ in 0..p.below(3) { a.generate(&mut res); }
+                r.cov("core:Isaac64Core:deep_state");
+            }
+            if deep && p.chance(1, 2) {
+                core_pair(a.clone(), a, "clone", true, json!({"seed": hex(&seed), "generated_blocks": gens, "deep_state": true}), sub, id, r);
+                r.cov("core:Isaac64Core");
+                r.cov("core:Isaac64Core:deep_clone");
+                r.distinct(hkey(&[&"core_deep_clone", &which, &seed[..].to_vec(), &gens]));
+                return;
+            }
             if p.chance(1, 4) {
                 let mut dst = C::from_seed(p.bytes(32).try_into().unwrap());
                 for _ in 0..p.below(5) { dst.generate(&mut res); }
